@@ -909,6 +909,40 @@ func (h *hist) opCloseTCP() {
 			h.m.Audit(nil)
 			h.m.CrossCheck()
 			h.rec.FP("tcp-control-close/wildcard=%v", h.wildcardTCP)
+			if ta, ok := c.Addr.(*net.TCPAddr); ok && h.rng.Intn(2) == 0 {
+				// a new connection from the same address and port (the host reuses its source port):
+				// it has no allocation - what the closed connection had is gone, nothing it sends
+				// without allocating is relayed
+				old, _ := h.m.Alloc(c)
+				nc, err := h.w.NewTCPClient(c.Name+"'", ta.IP, ta.Port, c.Listener-len(h.w.ServerUDP), c.User)
+				if err != nil {
+					h.rec.Ev("tcp-reconnect-from-the-same-port-refused")
+
+					return
+				}
+				// (the new connection takes the old one's place: same 5-tuple, same model key)
+				for i := range h.clients {
+					if h.clients[i] == c {
+						h.clients[i] = nc
+					}
+				}
+				stp := h.m.Begin()
+				n := 0
+				for _, p := range h.peers {
+					if old != nil && n < 3 {
+						if _, had := old.Perms[p.Addr.IP.String()]; had {
+							stp.ClientSend(nc, p.Addr, h.payload(24))
+							n++
+						}
+					}
+				}
+				if n == 0 {
+					stp.ClientSend(nc, h.peers[0].Addr, h.payload(24))
+				}
+				stp.End()
+				h.m.CrossCheck()
+				h.rec.FP("tcp-reconnect-from-the-same-port")
+			}
 
 			return
 		}
